@@ -124,6 +124,28 @@ fn replay_decode(s: &mut Summary, c: &Value) {
 
 fn replay_window(s: &mut Summary, c: &Value) {
     let g = |k: &str| c[k].as_u64().unwrap() as usize;
+    // the entry point that reads the clock itself: the model's four instants an hour apart around the wall clock, "now" between
+    // the second and the third of them - decided for the cases whose evaluation instant is the second one and whose window ends do
+    // not sit on it (the real clock is a little later than instant 1, never on it)
+    if g("now") == 1 {
+        let r = guarded(|| -> Result<(), (String, String)> {
+            let base = Time::now();
+            let h = |i: usize| base + chrono::TimeDelta::try_minutes(60 * (i as i64 - 1) - if i <= 1 { 1 } else { 0 }).unwrap();
+            let v = Validity::new(h(g("nb")), h(g("na")));
+            let want = g("nb") <= 1 && 1 <= g("na") && g("na") != 1;
+            // (na = instant 1 lies a minute in the past: rejected; nb = instant 1 likewise in the past: accepted)
+            let got = v.verify().is_ok();
+            if got != want {
+                return Err(("window:verify:clock".into(), format!("Validity::verify() = {got} for a window from {} to {} hours around now", g("nb") as i64 - 1, g("na") as i64 - 1)));
+            }
+            Ok(())
+        });
+        match r {
+            Ok(Ok(())) => {}
+            Ok(Err((k, m))) => s.violation(&k, m, json!({"case": c})),
+            Err(m) => s.violation("window:panic", m, c.clone()),
+        }
+    }
     // instants with a fractional second: evaluation times come from the clock (Time::now()), windows from certificates
     let ms = |t: Time, m: i64| t + chrono::TimeDelta::try_milliseconds(m).unwrap();
     let noon = Time::utc(2024, 5, 6, 12, 0, 0);
@@ -217,6 +239,29 @@ fn check_serial(s: &mut Summary, c: &Value, label: &str, bytes: &[u8], exp_der: 
         let j = serde_json::to_string(&ser).map_err(|e| ("serial:serde".to_string(), e.to_string()))?;
         if serde_json::from_str::<Serial>(&j).ok() != Some(ser) {
             return Err(("serial:serde".into(), format!("serde form {j} does not parse back")));
+        }
+        // the other conversions: the 20-octet array in both directions, String, and (for small values) the integer constructors
+        let mut arr = [0u8; 20];
+        arr[20 - bytes.len()..].copy_from_slice(bytes);
+        let via: [(&str, Option<Serial>); 2] = [("from_array", Serial::from_array(arr).ok()), ("try_from", Serial::try_from(arr).ok())];
+        for (name, v) in via {
+            if v != Some(ser) {
+                return Err(("serial:array".into(), format!("{name} of the 20-octet form gives {v:?}")));
+            }
+        }
+        let out: [u8; 20] = ser.into();
+        if ser.into_array() != arr || out != arr {
+            return Err(("serial:array".into(), format!("into_array / Into<[u8; 20]> give {:02x?}", ser.into_array())));
+        }
+        if nonzero && String::from(ser) != exp_dec {
+            return Err(("serial:decimal".into(), format!("String::from gives '{}', specification '{exp_dec}'", String::from(ser))));
+        }
+        if bytes.len() <= 16 {
+            let mut v: u128 = 0;
+            for b in bytes { v = (v << 8) | *b as u128; }
+            if Serial::from(v) != ser || (v <= u64::MAX as u128 && Serial::from(v as u64) != ser) {
+                return Err(("serial:from-int".into(), format!("Serial::from({v}) differs from from_slice")));
+            }
         }
         Ok(ser)
     });
